@@ -34,6 +34,8 @@ def make_exc(kind):
         return ConnectionResetError(errno.ECONNRESET, "Connection reset by peer")
     if kind in ("refused", "nowhere"):
         return ConnectionRefusedError(errno.ECONNREFUSED, "Connection refused")
+    if kind == "afmismatch":
+        return OSError(errno.EAFNOSUPPORT, "Address family not supported by protocol")
     if kind == "pipe":
         return BrokenPipeError(errno.EPIPE, "Broken pipe")
     if kind == "gai":
@@ -141,6 +143,8 @@ class ServerConn:
                 if rf is None and rep.startswith((b"ERROR", b"CLIENT_ERROR", b"SERVER_ERROR")):
                     net.err_replies += 1
             net.units.append((net.call_id, idx, len(rep)))
+            # where the reply's lines end (a truncation right after a header line leaves the client inside a data block)
+            net.unit_bounds[idx] = [i + 2 for i in range(len(rep) - 1) if rep[i:i + 2] == b"\r\n"][:8]
 
 
 class FakeSocket:
@@ -208,6 +212,13 @@ class FakeSocket:
             # environment -- a client that resolves the name again reaches the server
             f = "nowhere"
             srv = None
+        if f is None and isinstance(addr, tuple) and self.family in (self.net.AF_INET, self.net.AF_INET6):
+            # like the kernel: a socket of one address family cannot be connected to an address of another (the address that
+            # was resolved together with another family).  Not a fault of the environment: the client mixed two entries up
+            fam_of = {ip: fam for fam, ip in getattr(self.net, "_resolved", [])}
+            if fam_of.get(addr[0], self.family) != self.family:
+                f = "afmismatch"
+                srv = None
         if f is None and (srv is None or srv.down or getattr(srv, "mode", None) == "refuse"):
             f = "refused"
         self.server_key = key
@@ -370,6 +381,7 @@ class FakeNet:
         self.cmd_counter = 0
         self.sent_cmds = []
         self.units = []
+        self.unit_bounds = {}
         self.segmentation = "all"
         self.seg_state = 0
         self.err_replies = 0
@@ -409,6 +421,7 @@ class FakeNet:
         self.cmd_counter = 0
         self.sent_cmds = []
         self.units = []
+        self.unit_bounds = {}
         self.segmentation = segmentation
         self.seg_state = 0
 
